@@ -15,7 +15,7 @@ use std::collections::BTreeMap;
 use std::sync::atomic::{AtomicU64, Ordering};
 use std::sync::Mutex;
 
-pub const FOREIGN: u32 = 9_999;
+pub const FOREIGN: u32 = u32::MAX - 7;
 pub const ASSET: usize = 1;
 
 #[derive(Clone, Debug, PartialEq)]
@@ -207,6 +207,8 @@ fn is_market(o: &OrderRec) -> bool {
 pub fn judge_round(c: &AgentCfg, before: &[OrderRec], mid: f64, after_update: &[OrderRec], after_step: &[OrderRec]) -> Result<(), (String, String)> {
     let bad = |c: &str, d: String| Err((c.to_string(), d));
     let traders = c.traders();
+    let (t_lo, t_hi) = (traders.first().copied().unwrap_or(0), traders.last().copied().unwrap_or(0));
+    let is_own = |t: u32| t >= t_lo && t <= t_hi;
     let tick = c.tick();
     let nb = before.len();
     if after_update.len() < nb || after_update[..nb] != before[..] {
@@ -217,15 +219,18 @@ pub fn judge_round(c: &AgentCfg, before: &[OrderRec], mid: f64, after_update: &[
         if o.status != NEW {
             return bad("submitted-order-not-new", format!("{:?}", o));
         }
-        if !traders.contains(&o.trader) {
-            return bad("foreign-trader-id", format!("{:?} not in {:?}", o, traders));
+        if !is_own(o.trader) {
+            return bad("foreign-trader-id", format!("{:?} not in {}..={}", o, t_lo, t_hi));
         }
         if !is_market(o) && o.price % tick != 0 {
             return bad("off-grid-price", format!("{:?} tick {}", o, tick));
         }
         match c {
             AgentCfg::Random { tick_range, vol_range, .. } => {
-                if is_market(o) {
+                // (price 0 for a sell / 2^32-1 for a buy cannot be told from a market order; they
+                // are legitimate quotes when the configured range reaches the end of the axis)
+                let range_has_sentinel = tick_range.0 == 0 || (tick_range.1 as u64 - 1) * tick as u64 == MAXP as u64;
+                if is_market(o) && !range_has_sentinel {
                     return bad("random-agent-market-order", format!("{:?}", o));
                 }
                 let t = o.price / tick;
@@ -261,19 +266,50 @@ pub fn judge_round(c: &AgentCfg, before: &[OrderRec], mid: f64, after_update: &[
             if b.status != ACTIVE {
                 return bad("cancelled-order-was-not-active", format!("{:?} -> {:?}", b, a));
             }
-            if !traders.contains(&b.trader) {
+            if !is_own(b.trader) {
                 return bad("cancelled-someone-elses-order", format!("{:?}", a));
             }
             *cancelled_of.entry(b.trader).or_insert(0) += 1;
         }
     }
-    let new_of = |t: u32, market: Option<bool>| new.iter().filter(|o| o.trader == t && market.map_or(true, |m| is_market(o) == m)).count();
-    let group_active_before: Vec<&OrderRec> = before.iter().filter(|o| o.status == ACTIVE && traders.contains(&o.trader)).collect();
+    // per-trader counts of new limit / market orders in one pass (populations of tens of thousands)
+    let mut cnt: BTreeMap<(u32, bool), usize> = BTreeMap::new();
+    for o in new {
+        *cnt.entry((o.trader, is_market(o))).or_insert(0) += 1;
+    }
+    let new_of = |t: u32, market: Option<bool>| match market {
+        Some(m) => cnt.get(&(t, m)).copied().unwrap_or(0),
+        None => cnt.get(&(t, true)).copied().unwrap_or(0) + cnt.get(&(t, false)).copied().unwrap_or(0),
+    };
+    let group_active_before: Vec<&OrderRec> = before.iter().filter(|o| o.status == ACTIVE && is_own(o.trader)).collect();
     match c {
         AgentCfg::Random { rate, .. } => {
+            // per-trader counters in one pass each (populations of tens of thousands)
+            let mut live_upd: BTreeMap<u32, usize> = BTreeMap::new();
+            let mut live_step: BTreeMap<u32, usize> = BTreeMap::new();
+            let mut new_cnt: BTreeMap<u32, usize> = BTreeMap::new();
+            let mut had_active: BTreeMap<u32, bool> = BTreeMap::new();
+            let mut filled_instead: BTreeMap<u32, bool> = BTreeMap::new();
+            for o in after_update.iter().filter(|o| o.status == NEW || o.status == ACTIVE) {
+                *live_upd.entry(o.trader).or_insert(0) += 1;
+            }
+            for o in after_step.iter().filter(|o| o.status == NEW || o.status == ACTIVE) {
+                *live_step.entry(o.trader).or_insert(0) += 1;
+            }
+            for o in new {
+                *new_cnt.entry(o.trader).or_insert(0) += 1;
+            }
+            for (b, a) in before.iter().zip(after_step.iter()) {
+                if b.status == ACTIVE {
+                    had_active.insert(b.trader, true);
+                    if a.status == FILLED {
+                        filled_instead.insert(b.trader, true);
+                    }
+                }
+            }
             for t in &traders {
-                let live = after_update.iter().filter(|o| o.trader == *t && (o.status == NEW || o.status == ACTIVE)).count();
-                let live_after = after_step.iter().filter(|o| o.trader == *t && (o.status == NEW || o.status == ACTIVE)).count();
+                let live = live_upd.get(t).copied().unwrap_or(0);
+                let live_after = live_step.get(t).copied().unwrap_or(0);
                 let cancelling = cancelled_of.get(t).copied().unwrap_or(0);
                 if live > 1 {
                     return bad("random-agent-two-live-orders", format!("trader {} holds {} live orders after update", t, live));
@@ -281,15 +317,15 @@ pub fn judge_round(c: &AgentCfg, before: &[OrderRec], mid: f64, after_update: &[
                 if live_after > 1 {
                     return bad("random-agent-two-live-orders", format!("trader {} holds {} live orders", t, live_after));
                 }
-                let actions = new_of(*t, None) + cancelling;
+                let actions = new_cnt.get(t).copied().unwrap_or(0) + cancelling;
                 if *rate <= 0.0 && actions != 0 {
                     return bad("action-with-probability-zero", format!("trader {} acted {} times with activity rate {}", t, actions, rate));
                 }
                 if *rate >= 1.0 {
                     // a cancel may lose the race against a fill inside the step; count the instruction by its effect or the fill
-                    let had_active = before.iter().any(|o| o.trader == *t && o.status == ACTIVE);
-                    let filled_instead = before.iter().zip(after_step.iter()).any(|(b, a)| b.trader == *t && b.status == ACTIVE && a.status == FILLED);
-                    let acted = actions + if had_active && cancelling == 0 && filled_instead { 1 } else { 0 };
+                    let ha = had_active.get(t).copied().unwrap_or(false);
+                    let fi = filled_instead.get(t).copied().unwrap_or(false);
+                    let acted = actions + if ha && cancelling == 0 && fi { 1 } else { 0 };
                     if acted != 1 {
                         return bad("no-action-with-probability-one", format!("trader {} acted {} times with activity rate {}", t, acted, rate));
                     }
@@ -593,6 +629,14 @@ pub fn c16(tier: &str) -> i32 {
                     continue;
                 }
                 cfgs.push(AgentCfg::Random { n, tick_range: (495, 506), vol_range: (1, 4), tick, rate: p });
+                if n == 3 && (p == 1.0 || p == 0.3) {
+                    // ranges that reach the ends of the price axis (a sell at 0 / a buy at 2^32-1 are executed at once by the book)
+                    cfgs.push(AgentCfg::Random { n, tick_range: (0, 3), vol_range: (1, 4), tick, rate: p });
+                    if tick > 1 && u32::MAX % tick == 0 {
+                        let top = u32::MAX / tick;
+                        cfgs.push(AgentCfg::Random { n, tick_range: (top - 2, top + 1), vol_range: (1, 4), tick, rate: p });
+                    }
+                }
                 for &sigma in &[1.0f64, 10.0] {
                     cfgs.push(AgentCfg::Noise { start: 10, n: n as u16, tick, p_limit: p, p_market: p, p_cancel: p, vol: 7, mu: 0.0, sigma });
                     if p == 1.0 {
@@ -656,6 +700,22 @@ pub fn c16(tier: &str) -> i32 {
             });
         }
     });
+    // large populations (trader ids beyond 16 bits for the random agents, beyond 8 bits for the others)
+    let big: Vec<AgentCfg> = vec![
+        AgentCfg::Random { n: 70_000, tick_range: (495, 506), vol_range: (1, 4), tick: 1, rate: 1.0 },
+        AgentCfg::Random { n: 65_536, tick_range: (495, 506), vol_range: (1, 4), tick: 2, rate: 1.0 },
+        AgentCfg::Noise { start: 10, n: 300, tick: 1, p_limit: 1.0, p_market: 1.0, p_cancel: 1.0, vol: 7, mu: 0.0, sigma: 1.0 },
+        AgentCfg::Noise { start: 10, n: 65_535, tick: 1, p_limit: 1.0, p_market: 0.0, p_cancel: 0.0, vol: 7, mu: 0.0, sigma: 1.0 },
+        AgentCfg::Momentum { start: 20, n: 300, tick: 1, p_cancel: 1.0, vol: 5, decay: 1.0, demand: 1000.0, scale: 0.5, ratio: 1.0, mu: 0.0, sigma: 1.0 },
+    ];
+    std::thread::scope(|sc| {
+        for c in &big {
+            for multi in [false, true] {
+                let acc = &acc;
+                sc.spawn(move || run_seeded(acc, multi, c, StartBook::TwoSided, 1, 4));
+            }
+        }
+    });
     let execs = acc.execs.load(Ordering::Relaxed);
     let rounds_n = acc.rounds.load(Ordering::Relaxed);
     out.set("states", json!(execs));
@@ -671,6 +731,7 @@ pub fn c16(tier: &str) -> i32 {
             "start_books": ["Empty", "BidsOnly", "AsksOnly", "TwoSided", "AskAtOneTick", "LowTwoSided", "BidNearTop"], "rounds": "3 (momentum: 4, the last one with an unchanged mid-price)",
             "scripted_draws_per_update": n_draws, "deviation_bound": max_dev, "extreme_values": values.iter().map(|v| format!("{:#x}", v)).collect::<Vec<_>>(),
             "scripts_per_round_and_configuration": scripts_per_job.load(Ordering::Relaxed),
+            "large_populations": big.iter().map(|c| format!("{:?}", c)).collect::<Vec<_>>(),
             "seeded_runs": "bounded enumeration of seeds with Xoroshiro128** (labelled as such; not used to claim exhaustiveness)",
         }),
     );
